@@ -79,6 +79,7 @@ def main():
     finally:
         shutil.rmtree(tmp, ignore_errors=True)
         subprocess.run(["/venv/bin/python", os.path.join(VERIF, "tools", "py2lean.py")], capture_output=True)
+        subprocess.run(["/venv/bin/python", os.path.join(VERIF, "tools", "py2lean_eff.py")], capture_output=True)
     dst = os.path.join(VERIF, "seeded", name)
     os.makedirs(dst, exist_ok=True)
     for f in ("patch.diff", "demo.py", "notes.md"):
